@@ -17,6 +17,12 @@ on three carriers: `e4` (ext4, 1 KiB blocks, metadata_csum, extents), `e3` (ext3
                  casefold flag is set with debugfs set_inode_field while the directory is still linear.  Name kinds are
                  concrete byte strings (NAME_KINDS below) for every class the specification lists.
 
+  SizeFamily   = file type x mapping format x block size x i_size class (relative to the mapping, or the limit of the format:
+                 block map (12 + n + n^2 + n^3) blocks, extents 2^32 blocks - 1 byte, symlink 59 | 60 and blocksize - 2 | - 1)
+                 -> one file each under /sz of the carrier `sz_<mapping><blocksize>`.  Files are written by debugfs from sparse host
+                 files (data islands of non-zero bytes, the last mappable block included); sizes no mapped block reaches are set
+                 with set_inode_field size.  What was obtained is read back with the independent reader.
+
 Entry counts are derived from the real constants (block size, dirent size, csum tail, dx root limit and the fill rule of
 e2fsck/rehash.c copy_dir_entries: a leaf is closed once less than 20 % of it is left).  Every entry of a family directory is
 a hard link to one inode, so thousands of entries cost one inode.  Hash collisions are REAL collisions of the half-MD4
@@ -411,6 +417,162 @@ def build_st_carrier(build, outdir, fam):
 
 
 # ---------------------------------------------------------------------------------------------------------------
+# i_size boundaries (carriers `sz_<mapping><blocksize>`)
+# ---------------------------------------------------------------------------------------------------------------
+# one small filesystem per (mapping format, block size) of FsckPreserve!SizeFamily.  huge_file is on everywhere: without it the
+# format (kernel: ext4_max_bitmap_size) caps a file at 2^32 - 1 sectors, which at 4 KiB blocks lies below the block-map limit.
+SZ_CARRIERS = {("ind", 1024): ("sz_ind1k", "-t ext3 -O large_file,huge_file -b 1024 -N 256 -J size=1", 8192),
+               ("ind", 4096): ("sz_ind4k", "-t ext3 -O large_file,huge_file -b 4096 -N 256 -J size=4", 16384),
+               ("ext", 1024): ("sz_ext1k", "-t ext4 -O large_file,huge_file,metadata_csum,64bit -b 1024 -N 256 -J size=1", 8192),
+               ("ext", 4096): ("sz_ext4k", "-t ext4 -O large_file,huge_file,metadata_csum,64bit -b 4096 -N 256 -J size=4", 16384)}
+SZ_NB = 3                   # mapped blocks of the ordinary files: logical blocks 0..2, the model's LastBlk = 2
+HUGE_FILE_FL = 0x40000
+
+
+def sz_limit(m, bs, lim):
+    """largest i_size of the mapping format (FsckPreserve!SizeLimit with the real constants: SizeLimits of the specification)"""
+    return lim["indmaxblocks"] * bs if m == "ind" else (1 << lim["extlblkbits"]) * bs - 1
+
+
+def sz_last_mappable(m, lim):
+    return lim["indmaxblocks"] - 1 if m == "ind" else (1 << lim["extlblkbits"]) - 2
+
+
+def sz_plan(t, m, bs, c, lim):
+    """-> dict(host=(host file size, [(offset, length)] data islands) | None, target=symlink target, size=i_size to set or None,
+    want=i_size the file must end up with, post=extra step)"""
+    nb = SZ_NB
+    full = [(0, nb * bs)]
+    if t == "lnk":
+        n = {"fast_max": lim["fastsymlink"] - 1, "slow_min": lim["fastsymlink"], "slow_max_minus1": bs - 2, "slow_max": bs - 1}[c]
+        return dict(target="t" * n, want=n, fast=n < lim["fastsymlink"])
+    if t == "dir":
+        return dict(mkdir=True, want=None)
+    L = sz_limit(m, bs, lim)
+    if c == "end":
+        return dict(host=(nb * bs, full), want=nb * bs)
+    if c == "end_partial":
+        return dict(host=(nb * bs - 1, [(0, nb * bs - 1)]), want=nb * bs - 1)
+    if c == "last_init_first_byte":
+        return dict(host=(nb * bs, full), size=(nb - 1) * bs, want=(nb - 1) * bs)
+    if c == "sparse_tail":
+        return dict(host=((nb + 1) * bs, full), want=(nb + 1) * bs)
+    if c == "max_minus1":
+        return dict(host=(nb * bs, full), size=L - 1, want=L - 1)
+    if c == "max":
+        return dict(host=(nb * bs, full), size=L, want=L)
+    if c == "max_last_block_mapped":
+        last = sz_last_mappable(m, lim)
+        return dict(host=((last + 1) * bs, [(0, bs), (last * bs, bs)]), want=(last + 1) * bs, lastblk=last)
+    if c == "unwritten_past_eof":
+        return dict(host=((nb + 2) * bs, [(0, (nb + 2) * bs)]), size=(nb - 1) * bs + 5, want=(nb - 1) * bs + 5, unwritten=(nb, 2))
+    if c == "huge_file_iblocks":
+        return dict(host=(nb * bs, full), want=nb * bs, huge=nb)
+    raise RuntimeError("size class %s of the specification without a generator" % c)
+
+
+def sz_name(t, c):
+    return "%s_%s" % (t, c)
+
+
+def build_sz_carrier(build, outdir, m, bs, fam, lim):
+    cname, args, kb = SZ_CARRIERS[(m, bs)]
+    env = tool_env(build)
+    dbg = os.path.join(build, "debugfs", "debugfs")
+    img = os.path.join(outdir, cname + ".img")
+    with open(img, "wb") as f:
+        f.truncate(kb * 1024)
+    cmd = [os.path.join(build, "misc", "mke2fs"), "-q", "-F", "-U", mkbase.UUID, "-E", "hash_seed=" + mkbase.HASH_SEED] + args.split() + [img]
+    rc, out, err = run(cmd, env=env, timeout=600)
+    if rc != 0:
+        raise RuntimeError("mke2fs failed for size carrier %s: %s" % (cname, err.decode("utf8", "replace")[-400:]))
+    hostdir = os.path.join(outdir, "host_" + cname)
+    shutil.rmtree(hostdir, ignore_errors=True)
+    os.makedirs(hostdir)
+    plans, cmds, skipped = {}, ["mkdir /sz"], {}
+    for t, mm, b, c in sorted(fam):
+        nm = sz_name(t, c)
+        pl = sz_plan(t, m, bs, c, lim)
+        if pl.get("host"):
+            hp = os.path.join(hostdir, nm)
+            try:
+                with open(hp, "wb") as f:
+                    for k, (o, n) in enumerate(pl["host"][1]):
+                        f.seek(o)
+                        f.write(bytes((((k + 3) * 41 + i) % 255) + 1 for i in range(n)))          # never a zero byte
+                    f.truncate(pl["host"][0])
+            except OSError as e:
+                # the HOST cannot hold a sparse file of this size (ext4 host: 16 TiB - 4 KiB): the element cannot be built here
+                skipped[nm] = "host file of %d bytes: %s" % (pl["host"][0], e.strerror)
+                if os.path.exists(hp):
+                    os.unlink(hp)
+                continue
+            cmds.append("write %s /sz/%s" % (hp, nm))
+            if pl.get("size") is not None:
+                cmds.append("set_inode_field /sz/%s size %d" % (nm, pl["size"]))
+        elif pl.get("target"):
+            cmds.append("symlink /sz/%s %s" % (nm, pl["target"]))
+        elif pl.get("mkdir"):
+            cmds.append("mkdir /sz/%s" % nm)
+            cmds.append("symlink /sz/%s/entry target" % nm)
+        plans[nm] = pl
+    rc, out, err = run([dbg, "-w", "-f", "-", img], env=env, timeout=300, input=("\n".join(cmds) + "\n").encode())
+    shutil.rmtree(hostdir, ignore_errors=True)
+    if rc != 0:
+        raise RuntimeError("debugfs failed on size carrier %s: %s" % (cname, err.decode("utf8", "replace")[-300:]))
+
+    def files_of():
+        P = ext4read.project(img)
+        if "fatal" in P or "reader_err" in P:
+            raise RuntimeError("reader cannot project size carrier %s: %s" % (cname, str(P.get("fatal") or P.get("reader_err"))[:200]))
+        byino = {i["ino"]: i for i in P["inodes"]}
+        return {t_["path"][4:]: (t_, byino[t_["ino"]]) for t_ in P["tree"] if t_["path"].startswith("/sz/") and t_["path"].count("/") == 2}
+    files = files_of()
+    cmds = []
+    for nm, pl in sorted(plans.items()):
+        if nm not in files:
+            raise RuntimeError("size carrier %s: %s was not created: %s" % (cname, nm, (out + err).decode("utf8", "replace")[-300:]))
+        I = files[nm][1]
+        if pl.get("unwritten"):
+            l0, n = pl["unwritten"]
+            runs = [tuple(x) for x in I["runs"]]
+            if len(runs) != 1 or runs[0][0] != 0 or runs[0][1] != l0 + n:
+                raise RuntimeError("%s/%s: expected one extent of %d blocks, have %s" % (cname, nm, l0 + n, runs[:4]))
+            cmds += ["extent_open /sz/%s" % nm, "goto_block 0", "replace_node 0 %d %d" % (l0, runs[0][2]),
+                     "insert_node --after --uninit %d %d %d" % (l0, n, runs[0][2] + l0), "extent_close"]
+        if pl.get("huge"):
+            cmds += ["set_inode_field /sz/%s flags 0x%x" % (nm, _flagbits(I) | HUGE_FILE_FL), "set_inode_field /sz/%s blocks %d" % (nm, pl["huge"])]
+    if cmds:
+        rc, out, err = run([dbg, "-w", "-f", "-", img], env=env, timeout=300, input=("\n".join(cmds) + "\n").encode())
+        if rc != 0:
+            raise RuntimeError("debugfs (second step) failed on size carrier %s" % cname)
+        files = files_of()
+    got = {"files": {}, "not_built_on_this_host": skipped, "bs": bs, "mapping": m, "limit": sz_limit(m, bs, lim)}
+    for nm, pl in sorted(plans.items()):
+        T_, I = files[nm]
+        want_map = {"ind": "indirect", "ext": "extent"}[m]
+        if pl.get("target"):
+            want_map = "fast-symlink" if pl["fast"] else want_map
+        if I["map"] != want_map:
+            raise RuntimeError("%s/%s: mapping %s, wanted %s" % (cname, nm, I["map"], want_map))
+        isz = (I["size"][0] << 31) + I["size"][1]                      # the reader's projection splits 64-bit quantities (TLC ints are 32 bits)
+        if pl["want"] is not None and isz != pl["want"]:
+            raise RuntimeError("%s/%s: i_size %d, wanted %d" % (cname, nm, isz, pl["want"]))
+        runs = [tuple(x) for x in I["runs"]]
+        last = max((r[0] + r[1] - 1 for r in runs), default=-1)
+        if "lastblk" in pl and last != ext4read.clip(pl["lastblk"]):          # (the projection clips block numbers to 2^31 - 1)
+            raise RuntimeError("%s/%s: last mapped block %d, wanted %d" % (cname, nm, last, pl["lastblk"]))
+        if pl.get("unwritten") and not any(r[3] for r in runs):
+            raise RuntimeError("%s/%s: no unwritten extent obtained" % (cname, nm))
+        if pl.get("huge") and not (_flagbits(I) & HUGE_FILE_FL):
+            raise RuntimeError("%s/%s: HUGE_FILE flag not obtained" % (cname, nm))
+        got["files"][nm] = {"size": isz, "map": I["map"], "last_mapped_block": last, "mapped_blocks": sum(r[1] for r in runs),
+                            "unwritten_blocks": sum(r[1] for r in runs if r[3]), "ind_or_index_blocks": len(I["own"]["ind"]) + len(I["own"]["index"])}
+    rc, tail = _fsck_n(build, img)
+    return [{"name": cname, "img": img, "carrier": "sz", "layout": "sized", "fsck_n": rc, "fsck_tail": tail if rc else "", "measured": got, "dirs": None}]
+
+
+# ---------------------------------------------------------------------------------------------------------------
 # casefold (carriers `cf`, `cfs`)
 # ---------------------------------------------------------------------------------------------------------------
 CF_CARRIERS = {"nonstrict": ("cf", "-t ext4 -b 1024 -N 256 -O casefold,metadata_csum,64bit -J size=1"),
@@ -741,7 +903,7 @@ def family_images(build, univ, tier):
     stamp = open(os.path.join(build, ".verif_stamp")).read().strip()[:16]
     famlist = univ["dirfamily"] if tier == "thorough" else univ["quickdirfamily"]
     gen_h = hashlib.sha256(open(os.path.abspath(__file__), "rb").read() + json.dumps([famlist, univ["mapshapes"], univ["extstatefamily"], univ["cfdirfamily"],
-                                                                                     univ["invalidnamekinds"], univ["twinnamekinds"]], sort_keys=True).encode()).hexdigest()[:8]
+                                                                                     univ["invalidnamekinds"], univ["twinnamekinds"], univ["sizefamily"], univ["sizelimits"]], sort_keys=True).encode()).hexdigest()[:8]
     outdir = os.path.join(build, "verif-c05fam-%s-%s" % (stamp, gen_h))
     metaf = os.path.join(outdir, "meta.json")
     with Lock(os.path.join(build, "verif-c05fam.lock")):
@@ -778,13 +940,20 @@ def family_images(build, univ, tier):
                 raise RuntimeError("name kinds of the specification without a generator: %s" % unknown)
             for mode in sorted(CF_CARRIERS):
                 allimgs += build_cf_carrier(build, outdir, mode, [tuple(x) for x in univ["cfdirfamily"] if x[0] == mode], univ)
+            # i_size boundaries: one carrier per (mapping format, block size)
+            lims = {x["bs"]: x for x in univ["sizelimits"]}
+            szfam = [tuple(x) for x in univ["sizefamily"]]
+            for m, bs in sorted({(x[1], x[2]) for x in szfam}):
+                if (m, bs) not in SZ_CARRIERS or bs not in lims:
+                    raise RuntimeError("size family of the specification without a carrier: %s %s" % (m, bs))
+                allimgs += build_sz_carrier(build, outdir, m, bs, [x for x in szfam if x[1] == m and x[2] == bs], lims[bs])
             with open(metaf, "w") as f:
                 json.dump(allimgs, f, indent=1)
     ok = list(allimgs)
     bad = [(x["name"], x["fsck_n"], x["fsck_tail"][-200:]) for x in allimgs if x["fsck_n"] != 0]
     if tier == "quick":
         ok = [x for x in ok if x["name"] in ("e4_linear", "e4_rehashed_then_grown", "e3_linear", "up_linear", "st_shaped",
-                                             "cf_linear", "cf_rehashed", "cfs_linear", "cfs_rehashed")]
+                                             "cf_linear", "cf_rehashed", "cfs_linear", "cfs_rehashed") or x["carrier"] == "sz"]
     note = {"images": {x["name"]: x["measured"] for x in ok}, "fsck_n_of_tree_under_test_not_clean": bad,
             "entry_counts_e4": {"%s/%d" % (e, n): entry_count(e, n, 12) for e, n, c in sorted(set((e, n, "x") for e, n, c in map(tuple, famlist)))}}
     return ok, note
